@@ -43,6 +43,7 @@ def _dispatcher_filter(repo, getter: str, default_name: str):
 def run(ctx: Ctx):
     ctx.attempt(eligibility, ctx)
     ctx.attempt(rejections, ctx)
+    ctx.attempt(config_agreement, ctx)
     ctx.attempt(c17.dispatcher_filter, ctx, True)
     ctx.attempt(c10.dispatcher, ctx)
     ctx.attempt(receiver_role, ctx)
@@ -86,6 +87,66 @@ def eligibility(ctx: Ctx):
             except AnalysisError:
                 ctx.violation("D1", "GD.eligible", "final eligibility test: remaining range > matching threshold", fn, p.end,
                               why=f"an accepting return `{flow.dump(val)[:120]}` is not the comparison of remaining range with the matching threshold", construct="_is_valid_for_dispatch:range-return")
+
+
+def config_agreement(ctx: Ctx):
+    """Writer and reader of `valid_dispatch_states` agree. The dispatcher tests `<activity class name>.lower() in valid_dispatch_states`;
+    the configuration loader is the only writer of that tuple. Whatever the loader does to a configured name must leave a lower-cased
+    class name unchanged and fold the case: a chain of `lower()` (required), `strip()` and removals of separators (`replace("_", "")`).
+    A loader that rewrites names any other way (a lookup table, a helper) maps some configured activity to a string the dispatcher never
+    produces -- vehicles in that activity silently stop being eligible and fewer than min(vehicles, requests) pairs come back."""
+    DC = "nrel/hive/config/dispatcher_config.py"
+    fn = ctx.repo.func(DC, "DispatcherConfig.from_dict")
+    found = 0
+    for n in ast.walk(fn.node):
+        val = None
+        if isinstance(n, ast.Assign) and len(n.targets) == 1 and isinstance(n.targets[0], ast.Subscript) and isinstance(n.targets[0].slice, ast.Constant) \
+                and n.targets[0].slice.value == "valid_dispatch_states":
+            val = n.value
+        elif isinstance(n, ast.keyword) and n.arg == "valid_dispatch_states":
+            val = n.value
+        if val is None:
+            continue
+        found += 1
+        inner = val
+        while isinstance(inner, ast.Call) and flow.dump(inner.func) in ("tuple", "list", "sorted", "frozenset", "set") and inner.args:
+            inner = inner.args[0]
+        elt, var = None, None
+        if isinstance(inner, (ast.GeneratorExp, ast.ListComp, ast.SetComp)) and len(inner.generators) == 1 and isinstance(inner.generators[0].target, ast.Name) and not inner.generators[0].ifs:
+            elt, var = inner.elt, inner.generators[0].target.id
+        elif isinstance(inner, ast.Call) and flow.dump(inner.func) == "map" and len(inner.args) == 2:
+            f = inner.args[0]
+            if isinstance(f, ast.Lambda) and len(f.args.args) == 1:
+                elt, var = f.body, f.args.args[0].arg
+            elif flow.dump(f) == "str.lower":
+                elt, var = ast.parse("x.lower()", mode="eval").body, "x"
+        if elt is None:
+            raise AnalysisError(f"DispatcherConfig.from_dict: valid_dispatch_states built in an unrecognised way: {flow.dump(val)[:120]}")
+        chain = []
+        e = elt
+        bad = None
+        while not (isinstance(e, ast.Name) and e.id == var):
+            if isinstance(e, ast.Call) and isinstance(e.func, ast.Attribute):
+                m, a = e.func.attr, e.args
+                if m in ("lower", "casefold") and not a and not e.keywords:
+                    chain.append("lower")
+                elif m in ("strip", "lstrip", "rstrip") and not a:
+                    chain.append(m)
+                elif m == "replace" and len(a) == 2 and isinstance(a[0], ast.Constant) and a[0].value in ("_", " ", "-") and isinstance(a[1], ast.Constant) and a[1].value == "":
+                    chain.append("replace")
+                else:
+                    bad = flow.dump(e)[:120]
+                    break
+                e = e.func.value
+            else:
+                bad = flow.dump(e)[:120]
+                break
+        ok = bad is None and "lower" in chain
+        ctx.check(ok, "D1", "GD.eligible", "DispatcherConfig.from_dict folds the configured activity names the way the dispatcher folds the class name (lower case; separators aside)", fn, n,
+                  why_bad=(f"a configured name goes through `{bad}`" if bad else f"a configured name goes through {chain or 'nothing'} (no case folding)") +
+                          ": the dispatcher compares `vehicle_state.__class__.__name__.lower()` with these entries, so a name rewritten any other way is never matched and the vehicles "
+                          "in that activity are never eligible", construct="DispatcherConfig.from_dict:valid_dispatch_states")
+    ctx.require(found >= 1, "DispatcherConfig.from_dict: no statement builds valid_dispatch_states")
 
 
 def rejections(ctx: Ctx):
